@@ -3,31 +3,38 @@ From KV Require Import Guards GuardsProofs.
 From KV Require PathSan PresentLine.
 Open Scope N_scope.
 
-(** For every file system [fs], error pages [errpage] and byte string [secret] such that the secret
-    occurs in [fs] only inside guarded files (named [*.private], or whose [!> ] line has [hide] or
-    [allow-ips]) and not in the error pages (which carry no [!> ] line):
+(** For every file system [fs], error pages [errpage], template engine [tmpl] and byte string [secret] such
+    that the secret occurs in [fs] only inside guarded files (named [*.private], or whose [!> ] line has [hide] or
+    [allow-ips]), not in the error pages (which may carry a [!> ] line of their own), is not introduced by a
+    template ([!> tmpl], also on an error page) and is not part of the CORS denial text:
     for EVERY history of requests, page clears, clear-all and waits from the empty cache — any raw
-    (percent-encoded) paths, queries, methods, headers (Accept-Encoding, Range, If-Modified-Since, vary
-    headers), client addresses, in any order — with the response cache on or off, any content
-    negotiation outcome, any vary rules and any URI rewriting [prime] by Prime extensions (identity on a host
-    without them; "Expand . and /" on a default host; kvarn hands the client address to the pipeline beside
-    the request, a Prime extension cannot change it), a reply whose body sent or identity body contains the
-    secret answers a request whose (rewritten) decoded path is a file marked [allow-ips], neither hidden nor private, and
-    whose client address is listed by every [allow-ips] directive of that file. *)
+    (percent-encoded) paths, queries, methods, headers (Accept-Encoding, Range, If-Modified-Since, Origin, vary
+    headers), client addresses (every IPv4 and IPv6 address), in any order — with the response cache on or off,
+    any status filter of the host, any content negotiation outcome, any vary rules, any URI rewriting [prime] and
+    any internal override URI [override] by Prime extensions (identity / none on a host without them; "Expand . and /"
+    and the CORS denial on a default host; kvarn hands the client address to the pipeline beside
+    the request, a Prime extension cannot change it), whether or not the later repairs of the cache layer are in
+    ([fix_ovkey] ... [fix_ims]; the admission test of [handle_vary_missing] is), a reply whose body sent or identity
+    body contains the secret answers a request whose (rewritten) decoded path is a file marked [allow-ips], neither
+    hidden nor private, and whose client address is listed by every [allow-ips] directive of that file. *)
 Theorem guarded_content_confined :
-  forall (fs : bytes -> option bytes) (errpage : N -> bytes) (secret : bytes),
+  forall (fix_errline cors : bool) (fs : bytes -> option bytes) (errpage : N -> bytes)
+         (tmpl : list bytes -> bytes -> bytes) (secret : bytes),
     (forall t c, fs t = Some c -> contains_sub secret c = true -> guarded t c = true) ->
     (forall s, contains_sub secret (errpage s) = false) ->
-    (forall s, PresentLine.present_parse (errpage s) = Ok None) ->
-  forall cache_on ims_on parse_ims prime refuses vary_tuple vary_header now ops,
+    (forall args b, contains_sub secret (tmpl args b) = true -> contains_sub secret b = true) ->
+    (cors = true -> contains_sub secret (ps_body cors_pst) = false) ->
+  forall cache_on ims_on fix_ovkey fix_clear fix_svary fix_qmkey fix_ims sfilter parse_ims prime override refuses
+         vary_tuple vary_header clear_alias now ops,
     Forall2 (reply_ok fs secret prime) ops
-      (run_g true true fs errpage cache_on ims_on parse_ims prime refuses vary_tuple vary_header [] now ops).
+      (run_g true true fix_errline cors fs errpage tmpl cache_on ims_on fix_ovkey fix_clear fix_svary fix_qmkey fix_ims
+             sfilter parse_ims prime override refuses vary_tuple vary_header clear_alias [] now ops).
 Proof. exact guarded_content_confined_lemma. Qed.
 
 (** [reply_ok] spelled out: never for [hide] / [*.private], only to listed addresses for [allow-ips] *)
 Theorem reply_ok_meaning : forall fs secret prime r0 rp lg,
-  reply_ok fs secret prime (OReq r0) (ObReply rp lg) -> let r := prime r0 in
-  contains_sub secret (rp_body rp) = true \/ contains_sub secret (rp_identity rp) = true ->
+  reply_ok fs secret prime (XReq r0) (XbReply rp lg) -> let r := prime r0 in
+  contains_sub secret (rx_body rp) = true \/ contains_sub secret (rx_identity rp) = true ->
   exists t c, served_file (rq_path r) = Ok (Some t) /\ fs t = Some c /\
               is_private t = false /\ has_name N_HIDE (entries_of c) = false /\
               has_name N_ALLOW (entries_of c) = true /\ listed (rq_addr r) (entries_of c) = true.
@@ -54,30 +61,33 @@ Theorem ext_lookup_spelling_independent : forall p p' t,
 Proof. exact ext_lookup_spelling_independent_lemma. Qed.
 
 (** [allow-ips] forces the server cache preference None for every answer of the file, whatever
-    [cache] directives stand on the line, so no answer of such a file is ever stored *)
+    [cache] directives stand on the line, so no answer of such a file is ever admitted to the cache *)
 Theorem allow_ips_never_stored :
-  forall (fs : bytes -> option bytes) (errpage : N -> bytes),
-    (forall s, PresentLine.present_parse (errpage s) = Ok None) ->
-  forall r ok t c cache_on,
+  forall (fix_errline cors : bool) (fs : bytes -> option bytes) (errpage : N -> bytes) (tmpl : list bytes -> bytes -> bytes)
+         r ov t c cache_on sfilter,
     served_file (rq_path r) = Ok (Some t) -> fs t = Some c -> is_hidden t c = false -> is_allow_ips c = true ->
-    get_or_head (rq_method r) = true ->
-    f_spref (layer_b true true fs errpage r ok) = SP_NONE /\
-    may_store cache_on (rq_method r) (layer_b true true fs errpage r ok) = false.
+    get_or_head (rq_method r) = true -> (cors && is_cors_fail ov) = false ->
+    f_spref (layer_b true true fix_errline cors fs errpage tmpl r ov true) = SP_NONE /\
+    may_store_x cache_on sfilter (rq_method r) (plain (layer_b true true fix_errline cors fs errpage tmpl r ov true)) = false.
 Proof. exact allow_ips_never_stored_lemma. Qed.
 
-(** "the answer is the host's 404": for a GET/HEAD of a readable file that is hidden / private, or
-    marked [allow-ips] without listing the client address, the layer below the cache answers status 404
-    with the host's 404 page (whatever the spelling of the path) *)
+(** "the answer is the host's 404", below the cache: for a GET/HEAD of a readable file that is hidden / private, or
+    marked [allow-ips] without listing the client address, the answer has status 404 and the body of the host's
+    404 page as a client sees it for a path that does not exist ([errors/404.html] without its [!> ] line, else the
+    hard-coded page), whatever the spelling of the path (the 404 page is not a template and the file's line has
+    no [tmpl] directive) *)
 Theorem guarded_answer_is_404 :
-  forall (fs : bytes -> option bytes) (errpage : N -> bytes) r t c,
+  forall (cors : bool) (fs : bytes -> option bytes) (errpage : N -> bytes) (tmpl : list bytes -> bytes -> bytes),
+    first_tmpl (entries_of (errpage 404)) = None ->
+  forall r ov t c,
     served_file (rq_path r) = Ok (Some t) -> fs t = Some c -> get_or_head (rq_method r) = true ->
-    (exists parsed, PresentLine.present_parse c = Ok parsed) ->
+    (cors && is_cors_fail ov) = false -> has_name N_TMPL (entries_of c) = false ->
     is_hidden t c = true \/ listed (rq_addr r) (entries_of c) = false ->
-    f_status (layer_b true true fs errpage r true) = 404 /\
-    f_body (layer_b true true fs errpage r true) = errpage 404.
+    f_status (layer_b true true true cors fs errpage tmpl r ov true) = 404 /\
+    f_body (layer_b true true true cors fs errpage tmpl r ov true) = host_404_body errpage.
 Proof. exact guarded_answer_is_404_lemma. Qed.
 
-(** The statement is false of the code before the repairs (models selected by the two switches):
+(** The statement is false of the code before the repairs (models selected by the switches):
     (a) extension lookup on the raw path: [GET /secret%2Eprivate], cache on or off; *)
 Theorem private_spelling_v0_refuted :
   forall cache_on, violates w_fs W_SECRET [w_get (B "/secret%2Eprivate") 2]
@@ -93,17 +103,20 @@ Theorem violates_contradicts_confined : forall fs secret ops obs,
 Proof. exact violates_not_ok. Qed.
 
 (** non-vacuity: a host with one file of each kind meets the hypotheses; on it the listed address
-    receives the content (status, leaks, permitted) and nobody else does, for several spellings *)
+    receives the content (status, leaks, permitted) and nobody else does, for several spellings and for
+    IPv4, IPv6 and IPv4-mapped IPv6 clients *)
 Example hypotheses_satisfiable :
   (forall t c, w_fs t = Some c -> contains_sub W_SECRET c = true -> guarded t c = true) /\
   (forall s, contains_sub W_SECRET (w_err s) = false) /\
-  (forall s, PresentLine.present_parse (w_err s) = Ok None).
+  (forall args b, contains_sub W_SECRET (w_tmpl args b) = true -> contains_sub W_SECRET b = true).
 Proof. exact w_hypotheses. Qed.
 Example listed_address_is_served :
   w_summary w_history (w_run true true true w_history) =
     [ (200, true, true); (404, false, false); (200, true, true); (404, false, false);
       (404, false, false); (404, false, false); (404, false, false);
-      (404, false, false); (404, false, false); (200, false, false) ].
+      (404, false, false); (404, false, false); (200, false, false);
+      (404, false, false); (200, true, true); (404, false, false); (200, true, true);
+      (200, true, true) ].
 Proof. exact w_history_repaired. Qed.
 Example spelling_example :
   pct_encode [None; None; Some (true, true)] (B "/s.private") = B "/s%2Eprivate" /\
